@@ -103,6 +103,10 @@ def execute(case):
     return evaluate(case, CS.run(case))
 
 
+# producer ids are int64 on the wire: 0 is legal, ids beyond 2^31 / 2^32 must not be narrowed (the last equals 1 mod 2^32)
+PIDS = [0, 1, 2, (1 << 31) + 3, (1 << 32) + 1]
+
+
 def txn_log(draw, st, n_events):
     """Interleaved producer events -> batch specs."""
     specs = []
@@ -110,7 +114,7 @@ def txn_log(draw, st, n_events):
     seq = {}
     for _ in range(n_events):
         r = draw(st.integers(0, 11))
-        pid = draw(st.integers(0, 4))
+        pid = draw(st.sampled_from(PIDS))
         if r <= 4:
             n = draw(st.integers(1, 3))
             specs.append({"fmt": "v2", "kind": "data", "n": n, "pid": pid, "txn": True, "seq": seq.get(pid, 0),
@@ -191,7 +195,7 @@ def strategy():
         env = []
         for _ in range(draw(st.integers(0, 2))):
             kind = draw(st.sampled_from(["data", "commit", "abort"]))
-            spec = {"fmt": "v2", "kind": "data", "n": 2, "ts": [5]} if kind == "data" else {"kind": kind, "pid": draw(st.integers(0, 4))}
+            spec = {"fmt": "v2", "kind": "data", "n": 2, "ts": [5]} if kind == "data" else {"kind": kind, "pid": draw(st.sampled_from(PIDS))}
             env.append({"at": draw(st.sampled_from([0.02, 0.1, 0.4])), "ev": "append",
                         "log": draw(st.integers(0, nparts - 1)), "spec": spec})
         return {"cfg": cfg, "cluster": {"nodes": nodes, "fetch_max": draw(st.sampled_from([11, 11, 10, 7, 5, 4])),
